@@ -91,6 +91,14 @@ var targets = []target{
 	{file: "block/aggregation.go", recv: "Manager", name: "produceBlock"},
 	{file: "block/sync.go", recv: "Manager", name: "SyncLoop", cases: true},
 	{file: "block/sync.go", recv: "Manager", name: "handleEmptyDataHash"},
+	{file: "block/manager.go", recv: "Manager", name: "execCreateBlock"},
+	{file: "block/manager.go", recv: "Manager", name: "execApplyBlock"},
+	{file: "block/manager.go", recv: "Manager", name: "getHeaderSignature"},
+	{file: "block/manager.go", recv: "Manager", name: "getDataSignature"},
+	{file: "pkg/signer/file/local.go", recv: "FileSystemSigner", name: "Sign"},
+	{file: "pkg/signer/file/local.go", recv: "FileSystemSigner", name: "GetPublic"},
+	{file: "pkg/signer/file/local.go", name: "LoadFileSystemSigner"},
+	{file: "block/pending_base.go", recv: "pendingBase", name: "init"},
 	{file: "types/da.go", recv: "", name: "SubmitWithHelpers"},
 	{file: "types/da.go", recv: "", name: "RetrieveWithHelpers"},
 }
@@ -327,11 +335,68 @@ func (t *tr) block(b *ast.BlockStmt) string {
 	if b == nil {
 		return "[]"
 	}
+	return list(t.stmts(b.List))
+}
+
+// stmts translates a statement list.  One two-statement idiom is recognised: the element-wise copy of a slice,
+//     A = make(T, len(B))   (or A := ...)          for i := range B { A[i] = conv(B[i]) }   (conv optional)
+// which is `A = B` on the values of Model/GoLite.v (a conversion keeps the symbolic value).
+func (t *tr) stmts(l []ast.Stmt) []string {
 	var out []string
-	for _, s := range b.List {
-		out = append(out, t.stmt(s))
+	for i := 0; i < len(l); i++ {
+		if i+1 < len(l) {
+			if s, ok := t.copyLoop(l[i], l[i+1]); ok {
+				out = append(out, s)
+				i++
+				continue
+			}
+		}
+		out = append(out, t.stmt(l[i]))
 	}
-	return list(out)
+	return out
+}
+
+func (t *tr) copyLoop(a, b ast.Stmt) (string, bool) {
+	as, ok := a.(*ast.AssignStmt)
+	if !ok || len(as.Lhs) != 1 || len(as.Rhs) != 1 || (as.Tok != token.ASSIGN && as.Tok != token.DEFINE) {
+		return "", false
+	}
+	mk, ok := as.Rhs[0].(*ast.CallExpr)
+	if !ok || text(mk.Fun) != "make" || len(mk.Args) != 2 {
+		return "", false
+	}
+	ln, ok := mk.Args[1].(*ast.CallExpr)
+	if !ok || text(ln.Fun) != "len" || len(ln.Args) != 1 {
+		return "", false
+	}
+	src := text(ln.Args[0])
+	dst := text(as.Lhs[0])
+	rs, ok := b.(*ast.RangeStmt)
+	if !ok || rs.Key == nil || rs.Value != nil || text(rs.X) != src || len(rs.Body.List) != 1 {
+		return "", false
+	}
+	idx := text(rs.Key)
+	el, ok := rs.Body.List[0].(*ast.AssignStmt)
+	if !ok || el.Tok != token.ASSIGN || len(el.Lhs) != 1 || len(el.Rhs) != 1 || text(el.Lhs[0]) != dst+"["+idx+"]" {
+		return "", false
+	}
+	rhs := el.Rhs[0]
+	if c, ok := rhs.(*ast.CallExpr); ok && len(c.Args) == 1 { // a conversion T(B[i])
+		rhs = c.Args[0]
+	}
+	if text(rhs) != src+"["+idx+"]" {
+		return "", false
+	}
+	val := "(EId " + t.expr(ln.Args[0]) + ")"
+	switch l := as.Lhs[0].(type) {
+	case *ast.Ident:
+		return "(SAssign [" + q(l.Name) + "] " + val + ")", true
+	case *ast.SelectorExpr:
+		if id, ok := l.X.(*ast.Ident); ok {
+			return "(SAssignField " + q(id.Name) + " " + q(l.Sel.Name) + " " + val + ")", true
+		}
+	}
+	return "", false
 }
 
 // body translates a function body.  A body that is exactly one endless loop `for { ... }` without break / continue /
@@ -379,13 +444,9 @@ func (t *tr) body(b *ast.BlockStmt) string {
 			})
 			if plain {
 				var out []string
-				for _, s := range b.List[:len(b.List)-1] {
-					out = append(out, t.stmt(s))
-				}
+				out = append(out, t.stmts(b.List[:len(b.List)-1])...)
 				t.inEndless = true
-				for _, s := range fs.Body.List {
-					out = append(out, t.stmt(s))
-				}
+				out = append(out, t.stmts(fs.Body.List)...)
 				t.inEndless = false
 				out = append(out, "(SReturn [(EVar "+q("$continue")+")])")
 				return list(out)
@@ -517,6 +578,9 @@ func (t *tr) stmt(s ast.Stmt) string {
 			if _, ok := se.X.(*ast.Ident); ok {
 				return "(SSkip " + q("defer timer") + ")" // a metrics timer
 			}
+		}
+		if id, ok := x.Call.Fun.(*ast.Ident); ok && id.Name == "zeroBytes" && len(x.Call.Args) == 1 {
+			return "(SSkip " + q("defer zero") + ")" // the secret is wiped when the function returns
 		}
 		if id, ok := x.Call.Fun.(*ast.Ident); ok && id.Name == "close" && len(x.Call.Args) == 1 {
 			return "(SSkip " + q("defer close") + ")" // closing a local channel when the loop ends
@@ -778,7 +842,7 @@ func (t *tr) stmt(s ast.Stmt) string {
 	case *ast.ReturnStmt:
 		// `return x.M(...)` in a function with ONE result: the call is made first (it may be a call with an effect,
 		// which expressions cannot have in Model/GoLite.v), then its value is returned
-		if len(x.Results) == 1 && t.nresults == 1 {
+		if len(x.Results) == 1 && t.nresults >= 1 {
 			if c, ok := x.Results[0].(*ast.CallExpr); ok {
 				if se, ok := c.Fun.(*ast.SelectorExpr); ok {
 					if _, isPkg := t.isPkg(se.X); !isPkg {
@@ -981,9 +1045,7 @@ func main() {
 				var out []string
 				out = append(out, prelude...)
 				t.inEndless = true
-				for _, st := range cc.Body {
-					out = append(out, t.stmt(st))
-				}
+				out = append(out, t.stmts(cc.Body)...)
 				t.inEndless = false
 				out = append(out, "(SReturn [(EVar "+q("$continue")+")])")
 				ps := append([]string{}, params...)
@@ -1065,9 +1127,7 @@ func main() {
 			var out []string
 			out = append(out, "(SIf [] (ENot "+t.expr(loop.Cond)+") [(SReturn ("+"(EVar "+q("$break")+") :: "+list(lv)+"))] [])")
 			if plain {
-				for _, st := range loop.Body.List {
-					out = append(out, t.stmt(st))
-				}
+				out = append(out, t.stmts(loop.Body.List)...)
 			} else {
 				out = append(out, "(SUnknown "+q("break / continue / label inside the loop")+")")
 			}
